@@ -16,6 +16,7 @@ import (
 	"bytes"
 	"encoding/json"
 	"fmt"
+	"math/rand"
 	"os"
 	"os/exec"
 	"path/filepath"
@@ -703,8 +704,98 @@ func c19Enumerate(ast *syntax.Ast, fresh func() string) []c19Planned {
 			c19Planned{c19Edit{Op: "removeUnused", Calls: true}, true, "removeUnused:calls"},
 			c19Planned{c19Edit{Op: "removeUnused", Top: top}, true, "removeUnused:outputs"},
 			c19Planned{c19Edit{Op: "removeUnused", Calls: true, Top: top}, true, "removeUnused:calls+outputs"})
+		plan = append(plan, c19TopSubsets(ast)...)
 	}
 	return plan
+}
+
+// c19EnumRng drives the sampled part of the enumeration (nil: none).
+var c19EnumRng *rand.Rand
+var c19EnumSubsets = 5
+
+// c19TopSubsets: remove-unused with sampled subsets of the pipelines as
+// -top-calls (every subset when there are few pipelines): single pipelines
+// other than the top-level one, pairs/triples, and in particular NESTED top
+// calls (one top call calling another), whatever their declaration order.
+func c19TopSubsets(ast *syntax.Ast) []c19Planned {
+	if c19EnumRng == nil || len(ast.Pipelines) < 2 {
+		return nil
+	}
+	r := c19EnumRng
+	names := make([]string, len(ast.Pipelines))
+	pos := map[string]int{}
+	for i, p := range ast.Pipelines {
+		names[i] = p.Id
+		pos[p.Id] = i
+	}
+	var calls func(a, b string, depth int) bool
+	calls = func(a, b string, depth int) bool {
+		p, ok := ast.Callables.Table[a].(*syntax.Pipeline)
+		if !ok || p == nil || depth > 8 {
+			return false
+		}
+		for _, c := range p.Calls {
+			if c.DecId == b || calls(c.DecId, b, depth+1) {
+				return true
+			}
+		}
+		return false
+	}
+	var subsets [][]string
+	n := len(names)
+	if n <= 3 {
+		for mask := 1; mask < 1<<n; mask++ {
+			var sub []string
+			for i := 0; i < n; i++ {
+				if mask&(1<<i) != 0 {
+					sub = append(sub, names[i])
+				}
+			}
+			subsets = append(subsets, sub)
+		}
+	} else {
+		var nested [][]string
+		for _, a := range names {
+			for _, b := range names {
+				if a != b && calls(a, b, 0) {
+					nested = append(nested, []string{b, a})
+				}
+			}
+		}
+		r.Shuffle(len(nested), func(i, j int) { nested[i], nested[j] = nested[j], nested[i] })
+		if len(nested) > (c19EnumSubsets+1)/2 {
+			nested = nested[:(c19EnumSubsets+1)/2]
+		}
+		subsets = append(subsets, nested...)
+		for len(subsets) < c19EnumSubsets {
+			k := 1 + r.Intn(3)
+			perm := r.Perm(n)[:k]
+			sub := make([]string, k)
+			for i, j := range perm {
+				sub[i] = names[j]
+			}
+			subsets = append(subsets, sub)
+		}
+	}
+	var out []c19Planned
+	for _, sub := range subsets {
+		sort.Strings(sub)
+		class := fmt.Sprintf("removeUnused:top-subset(size %d)", len(sub))
+		nestedCls := ""
+		for _, a := range sub {
+			for _, b := range sub {
+				if a != b && calls(a, b, 0) {
+					if pos[b] < pos[a] {
+						nestedCls = ":nested(callee-declared-first)"
+					} else if nestedCls == "" {
+						nestedCls = ":nested(caller-declared-first)"
+					}
+				}
+			}
+		}
+		out = append(out, c19Planned{c19Edit{Op: "removeUnused", Calls: r.Intn(2) == 0, Top: sub}, true, class + nestedCls})
+	}
+	return out
 }
 
 // ---- one edit on one program ----
@@ -809,7 +900,49 @@ func c19CheckProp(cs *c19Case, base *c19Compiled, baseGraph *c19Node, pl c19Plan
 		case "removeOutput":
 			diff = c19CompareRemoved(baseGraph, ag, &c19Removal{outOf: map[string]map[string]bool{e.Callable: {e.Param: true}}, anyPipeIn: true})
 		case "removeUnused":
-			diff = c19CompareRemoved(baseGraph, ag, &c19Removal{nodeLoss: e.Calls, anyPipeIn: true, anyPipeOut: len(e.Top) > 0, top: base.Ast.Call.DecId})
+			tops := map[string]bool{}
+			for _, t := range e.Top {
+				tops[t] = true
+			}
+			diff = c19CompareRemoved(baseGraph, ag, &c19Removal{nodeLoss: e.Calls, anyPipeIn: true, anyPipeOut: len(e.Top) > 0, tops: tops})
+			// every -top-calls pipeline is a top-level call in its own right: it keeps its
+			// outputs and its own resolved call graph only loses unused elements
+			for _, t := range e.Top {
+				if diff != "" {
+					break
+				}
+				bp, _ := base.Ast.Callables.Table[t].(*syntax.Pipeline)
+				ap, _ := after.Ast.Callables.Table[t].(*syntax.Pipeline)
+				if bp == nil || ap == nil {
+					continue
+				}
+				var bo, ao []string
+				for _, o := range bp.OutParams.List {
+					bo = append(bo, o.Id)
+				}
+				for _, o := range ap.OutParams.List {
+					ao = append(ao, o.Id)
+				}
+				if strings.Join(bo, ",") != strings.Join(ao, ",") {
+					diff = fmt.Sprintf("top call %s lost outputs: %v -> %v", t, bo, ao)
+					break
+				}
+				if t == base.Ast.Call.DecId {
+					continue
+				}
+				bg, err1 := c19GraphOfPipeline(base.Ast, t)
+				tg, err2 := c19GraphOfPipeline(after.Ast, t)
+				if err1 != nil {
+					continue // the abstract call of this pipeline does not resolve even before the edit
+				}
+				if err2 != nil {
+					diff = fmt.Sprintf("top call %s: call graph no longer resolves: %v", t, err2)
+					break
+				}
+				if d := c19CompareRemoved(bg, tg, &c19Removal{nodeLoss: e.Calls, anyPipeIn: true, anyPipeOut: true, tops: tops}); d != "" {
+					diff = "as top call " + t + ": " + d
+				}
+			}
 		}
 		if diff != "" {
 			return fail("property", "graph", "resolved call graph changed: "+diff+"\n--- edited ---\n"+newSrc), editedEnc
@@ -982,6 +1115,14 @@ func c19Shrink(c *Ctx, cs *c19Case, pl c19Planned, key string) *c19Case {
 					ok = true
 				}
 			}
+			if pl.Edit.Op == "removeUnused" {
+				ok = true
+				for _, t := range pl.Edit.Top {
+					if _, isPipe := base.Ast.Callables.Table[t].(*syntax.Pipeline); !isPipe {
+						ok = false
+					}
+				}
+			}
 			if !ok {
 				continue
 			}
@@ -1088,6 +1229,10 @@ func runC19(c *Ctx) {
 		made++
 		r.hist("generator:" + c19FeatureKey(p.Features))
 		cases = append(cases, &c19Case{Name: fmt.Sprintf("gen-%d-%d", c.Seed, made), Src: p.Src, Path: genPath})
+	}
+	c19EnumRng = c.Rng
+	if c.Thorough {
+		c19EnumSubsets = 10
 	}
 	freshN := 0
 	reported := map[string]int{}
